@@ -74,7 +74,8 @@ def make_args(gate, rng):
     for a in list(out):
         if a.startswith("T2"):
             t1 = out["T1" + a[2:]]
-            out[a] = rng.uniform(0.3, 2.0) * t1 if t1 else rng.uniform(5e-6, 100e-6)
+            # incl. the switch T2 = 0 ("no pure dephasing") next to a finite T1
+            out[a] = (0.0 if rng.random() < 0.12 else rng.uniform(0.3, 2.0) * t1) if t1 else rng.uniform(5e-6, 100e-6)
     return out
 
 
